@@ -74,9 +74,14 @@ int World::exec_abuse(const Op &op) {
     }
     case OP_abuse_dims: {
         DataArray x = arr_at(a[0], a[1]); if (!x) return 2;
+        // a data-frame descriptor whose stored default column is the first index past the frame's last column (the append accepts it
+        // or refuses it; if it is stored, every getter that falls back to the default meets it)
+        bool planted = false;
+        if (mode == 0 && (sel % 4) == 0) { DataFrame fr = frame_at(a[0], a[2]); if (fr) { unsigned nc = 0; try { nc = (unsigned) fr.columns().size(); } catch (const std::exception &) {}
+            ndsize_t before = x.dimensionCount(); ATTEMPT(x.appendDataFrameDimension(fr, nc)); planted = x.dimensionCount() > before; if (planted) { cnt.inc("abuse.frame_dimension_default_past_last_column"); dims.erase(x.id()); } } }
         ndsize_t n = x.dimensionCount(); if (!n) return 2;
         Dimension d;
-        try { d = x.getDimension(1 + r.below(n)); } catch (const std::exception &) { return 1; }
+        try { d = x.getDimension(planted ? n : 1 + r.below(n)); } catch (const std::exception &) { return 1; }
         DimensionType t = d.dimensionType();
         arg_class = "sel=" + std::to_string(sel) + ",kind=" + std::to_string((int) t);
         // conversions to the wrong descriptor kind
